@@ -598,15 +598,10 @@ fn run_query(r: &mut Runner, rt: &tokio::runtime::Runtime, ses: &Session, z: &Zo
     if let (VOut::AcceptedSecure, RespClaim::Denial(claim)) = (&vo, &so.claim) {
         let truth = denial::claim_truth(z, q, t, claim);
         if truth.refutes() {
-            // whose fault? (i) records that are not in N3(Z) (hickory's chain is defective: the
-            // validator was handed a consistent proof of a wrong zone) => server; (ii) otherwise
-            // the validator, with the same discriminators as at H2
-            let genuine = {
-                let reference = denial::nsec3_chain(z, p.opt_out, &mut hs);
-                let loose = denial::nsec3_chain(z, false, &mut hs);
-                so.nsec3.iter().all(|x| x.zone == z.apex && x.hp == p.hp && reference.iter().chain(loose.iter()).any(|m| m.hash == x.n3.hash && m.next == x.n3.next))
-            };
-            let (cause, side) = if !genuine || chain_lacks_relevant {
+            // whose fault? (i) hickory's chain lacks the NSEC3 RR of a name a proof about q
+            // involves (the validator was handed a consistent proof of a different zone) => server;
+            // (ii) otherwise the validator, with the same discriminators as at H2
+            let (cause, side) = if chain_lacks_relevant {
                 ("chain-lacks-relevant-name".to_string(), "server-chain-defect")
             } else {
                 let case = crate::H2Case {
